@@ -672,6 +672,52 @@ fn main() {
             let p: Vec<&str> = s.split(',').collect();
             println!("partial={}", p.len() == 2 && p[0] != p[1]);
         }
+        // flush_fault table|manifest : a memtable flush whose table-file creation / manifest append fails once
+        "flush_fault" => {
+            use raindb::{ReadOptions, WriteOptions};
+            let fs = rdbv::faultfs::FaultFs::new();
+            let mut o = raindb::DbOptions::with_memory_env();
+            o.filesystem_provider = std::sync::Arc::new(fs.clone());
+            o.db_path = "db".to_string();
+            o.create_if_missing = true;
+            let get = |db: &raindb::DB| match db.get(ReadOptions::default(), b"k") {
+                Ok(x) => String::from_utf8_lossy(&x).to_string(),
+                Err(_) => "notfound".to_string(),
+            };
+            {
+                let db = raindb::DB::open(o.clone()).expect("open");
+                db.put(WriteOptions::default(), b"k".to_vec(), b"v".to_vec()).unwrap();
+                fs.arm(if a[1] == "table" { ".rdb" } else { "manifest" }, 1, false);
+                let _ = db.flush_for_verif();
+                println!("fault_hit={}", fs.failures() > 0);
+                fs.disarm();
+                println!("after_fault={}", get(&db));
+                // one more write and flush attempt after the fault is gone
+                let _ = db.put(WriteOptions::default(), b"z".to_vec(), b"1".to_vec());
+                let _ = db.flush_for_verif();
+            }
+            let db = raindb::DB::open(o.clone()).expect("reopen");
+            println!("after_reopen={}", get(&db));
+        }
+        // sched_flush_visibility : a get runs to completion while the flush appends its edit to the manifest
+        "sched_flush_visibility" => {
+            use raindb::{ReadOptions, WriteOptions};
+            let fs = rdbv::faultfs::FaultFs::new();
+            let mut o = raindb::DbOptions::with_memory_env();
+            o.filesystem_provider = std::sync::Arc::new(fs.clone());
+            o.db_path = "db".to_string();
+            o.create_if_missing = true;
+            let db = std::sync::Arc::new(raindb::DB::open(o).expect("open"));
+            db.put(WriteOptions::default(), b"k".to_vec(), b"v".to_vec()).unwrap();
+            let seen: std::sync::Arc<std::sync::Mutex<String>> = Default::default();
+            let (db2, seen2) = (std::sync::Arc::clone(&db), std::sync::Arc::clone(&seen));
+            fs.on_touch("manifest", std::sync::Arc::new(move || {
+                let r = db2.get(ReadOptions::default(), b"k");
+                *seen2.lock().unwrap() = match r { Ok(x) => String::from_utf8_lossy(&x).to_string(), Err(_) => "notfound".to_string() };
+            }));
+            let _ = db.flush_for_verif();
+            println!("during_flush={}", seen.lock().unwrap());
+        }
         // sched_get_race : while a get is in its unlocked section, the memtable is rotated and flushed
         "sched_get_race" => {
             use raindb::{ReadOptions, WriteOptions};
